@@ -1,6 +1,11 @@
 /-
-  SPEC: fairness constraints (Clarke–Grumberg–Peled, "Model Checking", the chapter on fairness; the documentation of
-  pyModelChecking refers to it for the `F=` argument of the three `modelcheck` entry points).
+  SPEC: fairness constraints, as stated by property C15 (/verif/properties.jsonl): "A/E quantify over the paths that
+  visit every set in F infinitely often; an atomic proposition p under fairness means 'p holds and a fair path starts
+  here'" — the semantics of Clarke–Grumberg–Peled, "Model Checking", chapter on fairness.  The package's own
+  documentation is thinner and partly different: doc/source/model_checking.rst speaks of ONE set of fair states each of
+  which recurs infinitely often, the docstrings say "F: a list of fair states", and `Kripke.get_fair_states` treats F as
+  a container of constraint SETS (`set(scc) & P` for P in F).  This file follows C15 and the code's data shape (a list
+  of sets); it is C15's reading that the theorems of C15.lean refute for the implementation.
 
   A fairness constraint is a set of states; `F` is a finite list of them.  A path is *fair* w.r.t. `F` when it
   visits every set of `F` infinitely often.  `FairState K F s`: some fair path starts in `s`.
